@@ -307,7 +307,7 @@ class ExecSim(object):
         _CTX['sim'] = self
         self.spawner = spawner
 
-        base = boot.fresh_dir('exec.')
+        base = boot.case_dir('exec.')
         self.sess = session or HollowSession(module='pilot.0000', uid='rp.session.verif.exec',
                                              sandbox=base)
         sb = '%s/rsbox' % base
